@@ -19,7 +19,12 @@
 #define STR2( x ) #x
 #define STR( x ) STR2( x )
 
-using world_t = c15::World< BUF, BUF >;
+#if defined( ISR ) && ISR
+#include "C15_isr.hpp"
+using world_t = c15::World< c15::IsrRadio< BUF, BUF > >;
+#else
+using world_t = c15::World< c15::Radio< BUF, BUF > >;
+#endif
 
 static int ev( int cact, int fcp, int fpc, int uact ) { return ( ( cact * 4 + fcp ) * 2 + fpc ) * c15::NU + uact; }
 
@@ -70,8 +75,8 @@ int main( int argc, char** argv )
     rep.sample( sample_run( w, { ev( C_DATA, FT_OK, 0, U_NONE ), ev( C_DATA, FT_OK, 0, U_NONE ), ev( C_DATA, FT_OK, 0, U_NONE ), ev( C_RETX, FT_OK, 0, U_NONE ), ev( C_RETX, FT_OK, 0, U_CONSUME_LATE ), ev( C_RETX, FT_OK, 0, U_CONSUME ) } ) );
     rep.sample( sample_run( w, { ev( C_EMPTY, FT_OK, 1, U_COMMIT1 ), ev( C_RETX, FT_LOST, 0, U_COMMITMAX ), ev( C_RETX, FT_OK, 0, U_NONE ), ev( C_EMPTY, FT_OK, 0, U_NONE ), ev( C_EMPTY, FT_OK, 0, U_NONE ) } ) );
 
-    rep.notes[ "world" ] = mc::fmt( "ll_data_pdu_buffer<%d,%d,Radio>, max_rx_size = max_tx_size = 29, sizeof = %zu bytes, state image %zu bytes, ids and packet counters modulo %u%s",
-        BUF, BUF, sizeof( world_t::dut_t ), bfs.isz, IDM, FORCED ? ", central may repeat acknowledged PDUs" : "" );
+    rep.notes[ "world" ] = mc::fmt( "%s; ll_data_pdu_buffer<%d,%d,Radio>, max_rx_size = max_tx_size = 29, sizeof = %zu bytes, state image %zu bytes, ids and packet counters modulo %u%s",
+        world_t::dut_t::dut_name(), BUF, BUF, sizeof( world_t::dut_t ), bfs.isz, IDM, FORCED ? ", central may repeat acknowledged PDUs" : "" );
     rep.notes[ "bound" ] = mc::fmt( "all event sequences of %d connection events (alphabet %d, enabledness by reference state)%s",
         o.max_depth, w.num_events(), rep.fixpoint ? "; fixpoint reached: every reachable state was expanded" : "; no fixpoint within the bound" );
     rep.counters[ "foreign-oracle-C15-failures-pruned" ] = w.foreign[ 0 ];
